@@ -6,6 +6,7 @@ package main
 import (
 	"bytes"
 	"fmt"
+	"io"
 	"strings"
 	"time"
 
@@ -76,9 +77,37 @@ func walk(stream []byte, thr int) [][]byte {
 	return bodies
 }
 
-func decodeStream(dir proto.Direction, thr int, stream []byte) string {
+// chunkReader hands out the stream in pieces whose sizes cycle through sizes (like a socket would).
+type chunkReader struct {
+	data  []byte
+	sizes []int
+	i     int
+}
+
+func (c *chunkReader) Read(b []byte) (int, error) {
+	if len(c.data) == 0 {
+		return 0, io.EOF
+	}
+	n := max(1, c.sizes[c.i%len(c.sizes)])
+	c.i++
+	n = min(n, len(b), len(c.data))
+	copy(b, c.data[:n])
+	c.data = c.data[n:]
+	return n, nil
+}
+
+// decodeStream: chunks == nil → the decoder reads a bytes.Reader given to NewDecoder; otherwise the reader is
+// installed with SetReader (what EnableEncryption does) and delivers the stream in chunks. The frame decoder's
+// answer must not depend on either (every read of the decoder is a full read).
+func decodeStream(dir proto.Direction, thr int, stream []byte, chunks []int) string {
 	return hx.Guard(20*time.Second, func() string {
-		d := codec.NewDecoder(bytes.NewReader(stream), dir, logr.Discard())
+		var d *codec.Decoder
+		if chunks == nil {
+			d = codec.NewDecoder(bytes.NewReader(stream), dir, logr.Discard())
+		} else {
+			d = codec.NewDecoder(bytes.NewReader(nil), dir, logr.Discard())
+			d.SetReader(&chunkReader{data: append([]byte(nil), stream...), sizes: chunks})
+		}
 		if thr >= 0 {
 			d.SetCompressionThreshold(thr)
 		}
@@ -111,7 +140,11 @@ func emit(run *hx.Run, class string, dirS string, thr int, stream []byte) {
 		dir = proto.ClientBound
 		capSz = codec.UncompressedCap
 	}
-	impl := decodeStream(dir, thr, stream)
+	var chunks []int
+	if len(stream) > 0 && (len(stream)*7+thr)%3 != 0 { // two thirds of the cases: chunked delivery through SetReader
+		chunks = [][]int{{1}, {2, 1}, {3}, {7, 1, 100}, {5}, {1460}, {4096}, {1, 4096}}[(len(stream)+thr+8)%8]
+	}
+	impl := decodeStream(dir, thr, stream, chunks)
 	var or []string
 	seen := map[string]bool{}
 	for _, b := range walk(stream, thr) {
